@@ -50,6 +50,26 @@ theorem faithful_same {db db' : DB} (h : SameBlks db db') (l : List Entry) (hf :
     simp only [Option.map_some, Option.some.injEq] at this
     exact ⟨e1, rfl, by rw [this]; exact h1⟩
 
+theorem advanceAcc_lastSent (cfg : Config) (a : Acc) (b : Blk) (fi : Option Entry) :
+    (advanceAcc cfg a b fi).st.lastSent = a.st.lastSent := by
+  unfold advanceAcc
+  split
+  · rfl
+  · split
+    · rfl
+    · split
+      · rfl
+      · simp only
+        split
+        · rfl
+        · rw [advanceTo_eq]
+          split
+          · rfl
+          · rw [processStalled_st]
+            obtain ⟨seen, hs⟩ := processIrr_st cfg { a with st := withDb ((a.st.db.moveLIB _).purgeBeforeLIB cfg.kept) a.st }
+              (withFirst fi (a.st.db.hasNewIrreversibleSegment cfg.fsb _).2.1) b.ref (fun i => (a.st.db.find i).map (·.blk))
+            rw [hs]; rfl
+
 /-- **one incoming block**: the events delivered for it are accepted by the push/pop consumer, which ends on the
     pending chain of the new state; and the invariant holds again. -/
 theorem processBlock_step (cfg : Config) (hnew : cfg.matches .new = true) (hundo : cfg.matches .undo = true)
@@ -57,23 +77,26 @@ theorem processBlock_step (cfg : Config) (hnew : cfg.matches .new = true) (hundo
     (hI : Inv s P) (hcl : SentClosed s.db) (hb : WFin b) (hB : HB s.db b) (hL : LibDeclOK s.db b) :
     ∃ P', (⟨s.db.libRef.id, P⟩ : CS).run (processBlock cfg s b none).2.1 =
         some ⟨(processBlock cfg s b none).1.db.libRef.id, P'⟩ ∧
-      Inv (processBlock cfg s b none).1 P' := by
+      Inv (processBlock cfg s b none).1 P' ∧
+      (((processBlock cfg s b none).2.1 = [] ∧ (processBlock cfg s b none).1.lastSent = s.lastSent) ∨
+       (s.db.find b.id = none ∧ triggers cfg s b = true ∧
+          ∃ l, (processBlock cfg s b none).1.lastSent = some l ∧ l.ref = b.ref)) := by
   unfold processBlock
   rcases plan_cases cfg s b hI.noInit hI.libNe with ⟨r, hr⟩ | ⟨hex, _, u, rd, j, hsw, hpl⟩
-  · rw [hr]; exact ⟨P, rfl, hI⟩
+  · rw [hr]; exact ⟨P, rfl, hI, Or.inl ⟨rfl, rfl⟩⟩
   obtain ⟨hf, hadd⟩ := fresh_of_addLink s.db b hI.wf hb hex
   have hal : afterLink s b = { s with db := appendBlk s.db b } := afterLink_eq s b hI.wf hb hex
   have hlibT : (afterLink s b).db.hasLIB = true := by rw [hal]; exact hasLIB_of_id _ hI.libNe
   rw [hpl, planLinked_hasLIB cfg _ b _ u rd j hlibT, hal]
   cases hc : computeLongestChain cfg { s with db := appendBlk s.db b } b with
   | none =>
-    refine ⟨P, rfl, inv_afterLink s P b none hI hb hB hf ?_⟩
+    refine ⟨P, rfl, inv_afterLink s P b none hI hb hB hf ?_, Or.inl ⟨rfl, rfl⟩⟩
     intro c cs h; cases h
   | some lc =>
     obtain ⟨hp, hn, hfa, htop, hlast⟩ := compute_chain_path cfg s P b hI hb hB hf lc hc
     cases lc with
     | nil =>
-      refine ⟨P, rfl, inv_afterLink s P b (some []) hI hb hB hf ?_⟩
+      refine ⟨P, rfl, inv_afterLink s P b (some []) hI hb hB hf ?_, Or.inl ⟨rfl, rfl⟩⟩
       intro c cs h; cases h
     | cons c0 cs0 =>
       have hcok : CacheOK { s with db := appendBlk s.db b, cache := some (c0 :: cs0) } := by
@@ -83,7 +106,7 @@ theorem processBlock_step (cfg : Config) (hnew : cfg.matches .new = true) (hundo
         exact ⟨hp, hn, hfa⟩
       have hI1 := inv_afterLink s P b (some (c0 :: cs0)) hI hb hB hf hcok
       cases htr : triggers cfg s b with
-      | false => exact ⟨P, rfl, hI1⟩
+      | false => exact ⟨P, rfl, hI1, Or.inl ⟨rfl, rfl⟩⟩
       | true =>
         simp only [if_true]
         rw [htr] at hsw
@@ -163,13 +186,14 @@ theorem processBlock_step (cfg : Config) (hnew : cfg.matches .new = true) (hundo
             rw [hfb]; exact hL e1 hfe
         obtain ⟨haf, han, t, Q', hevs, hrun, hI3⟩ :=
           advance_inv cfg hirr a hef hen b _ hI2 eb.blk hlastSent hcr hlibok
-        refine ⟨Q', ?_, ?_⟩
+        refine ⟨Q', ?_, hI3, Or.inr ⟨hf, (by first | rfl | trivial), eb.blk, ?_, heblast.1⟩⟩
         · show (⟨s.db.libRef.id, P⟩ : CS).run (finish (advanceAcc cfg a b none)).2.1 = _
           have : (finish (advanceAcc cfg a b none)).2.1 = a.evs ++ t := hevs
           rw [this, run_append, ← hs3lib, herun]
           simp only [Option.bind_some]
           rw [← hsame.1]
           exact hrun
-        · exact hI3
+        · show (advanceAcc cfg a b none).st.lastSent = some eb.blk
+          rw [advanceAcc_lastSent]; exact hlastSent
 
 end BstreamVerif.Forkable
